@@ -212,3 +212,120 @@ Proof.
     split; unfold resp_write at 1; change (serialize_cc []) with (@nil N); apply hg_get_last_del.
   - split; apply hg_get_last_del.
 Qed.
+
+(* ================================================================== the Request binding *)
+(* request.py as repaired by 3a34615 (the setter stores text only) and bc88d45 (_update_cache_control drops the
+   cached tuple): [drop] = true.  Objects live in a heap because a caller may keep (and later change) an object
+   that the request no longer caches. *)
+Definition qenv_text (st : qstate) : str := match q_env st with Some t => t | None => [] end.
+
+(* the cache entry, when there is one, names an object that is exactly the parse of the text it was cached under:
+   every write through ANY object drops the entry *)
+Definition qinv (st : qstate) : Prop :=
+  match q_cache st with
+  | Some (h, j) => (j < length (q_heap st))%nat /\ nth j (q_heap st) [] = parse_cc h
+  | None => True
+  end.
+
+Lemma set_nth_length {A} n (x : A) l : length (set_nth n x l) = length l.
+Proof. revert n. induction l as [|y l IH]; intros [|n]; cbn; auto. Qed.
+
+Lemma nth_set_nth {A} n (x d : A) l : (n < length l)%nat -> nth n (set_nth n x l) d = x.
+Proof. revert n. induction l as [|y l IH]; intros [|n] H; cbn in *; try lia; [reflexivity|apply IH; lia]. Qed.
+
+Lemma req_parse_into i toks : forall p st,
+  let r := parse_into (req_write true i) toks p st in
+  length (q_heap (snd r)) = length (q_heap st) /\
+  (toks = [] -> snd r = st) /\
+  (toks <> [] -> q_env (snd r) = Some (serialize_cc (apply_tokens toks p)) /\ q_cache (snd r) = None).
+Proof.
+  induction toks as [|[n v] toks IH]; intros p st; cbn [parse_into].
+  - cbn. split; [reflexivity|]. split; [reflexivity|congruence].
+  - cbv zeta. specialize (IH (pset n (token_value v) p) (req_write true i (pset n (token_value v) p) st)).
+    cbv zeta in IH. destruct IH as [L [E N]].
+    split; [rewrite L; cbn; apply set_nth_length|]. split; [discriminate|]. intros _.
+    destruct toks as [|t toks'].
+    + rewrite (E eq_refl). cbn. split; reflexivity.
+    + apply N. discriminate.
+Qed.
+
+Lemma req_get_spec st : qinv st ->
+  let '(st', i) := req_cc_get true st in
+  let p := nth i (q_heap st') [] in
+  qinv st' /\ agree p (qenv_text st) /\ agree p (qenv_text st').
+Proof.
+  intros I. unfold req_cc_get. fold (qenv_text st). set (value := qenv_text st).
+  (* the path that parses a new object *)
+  assert (F :
+    let i := length (q_heap st) in
+    let st0 := mkQ (q_env st) (q_heap st ++ [[]]) (q_cache st) in
+    let '(p, st1) := parse_into (req_write true i) (tokens (S (length value)) value) [] st0 in
+    let st' := mkQ (q_env st1) (set_nth i p (q_heap st1)) (Some (value, i)) in
+    qinv st' /\ agree (nth i (q_heap st') []) value /\ agree (nth i (q_heap st') []) (qenv_text st')).
+  { cbv zeta. set (i := length (q_heap st)). set (st0 := mkQ (q_env st) (q_heap st ++ [[]]) (q_cache st)).
+    pose proof (req_parse_into i (tokens (S (length value)) value) [] st0) as R. cbv zeta in R.
+    pose proof (parse_into_props (req_write true i) (tokens (S (length value)) value) [] st0) as Pp.
+    destruct (parse_into (req_write true i) (tokens (S (length value)) value) [] st0) as [p st1].
+    cbn [fst snd] in *. destruct R as [L [E N]].
+    assert (Hp : p = parse_cc value) by (rewrite parse_cc_tokens; exact Pp).
+    assert (Hi : (i < length (q_heap st1))%nat).
+    { rewrite L. unfold st0. cbn [q_heap]. rewrite app_length. cbn. unfold i. lia. }
+    cbn [q_heap q_env q_cache qinv qenv_text]. rewrite (nth_set_nth i p [] _ Hi).
+    split; [split; [rewrite set_nth_length; exact Hi|exact Hp]|]. split; [left; exact Hp|].
+    destruct (tokens (S (length value)) value) as [|t toks] eqn:Et.
+    - rewrite (E eq_refl). unfold st0. cbn [q_env]. left. rewrite Hp. reflexivity.
+    - destruct (N ltac:(discriminate)) as [Ee _]. rewrite Ee. right. rewrite <- Pp. reflexivity. }
+  destruct (q_cache st) as [[h j]|] eqn:Ec.
+  - destruct (str_eqb h value) eqn:Eh.
+    + apply str_eqb_eq in Eh. subst h. unfold qinv in I. rewrite Ec in I. destruct I as [Hj Hn].
+      cbv zeta. split; [unfold qinv; rewrite Ec; split; assumption|]. split; left; exact Hn.
+    + cbv zeta in F |- *. destruct (parse_into _ _ _ _) as [p st1]. exact F.
+  - cbv zeta in F |- *. destruct (parse_into _ _ _ _) as [p st1]. exact F.
+Qed.
+
+Lemma req_write_inv i p st : qinv (req_write true i p st).
+Proof. exact I. Qed.
+
+Lemma qstep_inv sth o : qinv (fst sth) -> qinv (fst (fst (qcc_step true sth o))).
+Proof.
+  destruct sth as [st held]. cbn [fst]. intros Hi.
+  assert (T : forall h, qinv (fst (match h, held with true, Some i => (st, i) | _, _ => req_cc_get true st end))).
+  { intros h. pose proof (req_get_spec st Hi) as G. destruct (req_cc_get true st) as [st1 i1]. cbv zeta in G.
+    destruct h; destruct held; cbn [fst]; tauto. }
+  destruct o; cbn [qcc_step].
+  - pose proof (req_get_spec st Hi) as G. destruct (req_cc_get true st) as [st1 i]. cbv zeta in G. cbn [fst]. tauto.
+  - specialize (T held0). destruct (match held0, held with true, Some i => (st, i) | _, _ => req_cc_get true st end) as [st1 i].
+    cbn [fst] in T. destruct (attr_set a Request v (nth i (q_heap st1) [])) as [[f|]|e]; cbn [fst]; try exact T.
+    apply req_write_inv.
+  - specialize (T held0). destruct (match held0, held with true, Some i => (st, i) | _, _ => req_cc_get true st end) as [st1 i].
+    cbn [fst] in T. destruct (attr_del a Request (nth i (q_heap st1) [])) as [[f|]|e]; cbn [fst]; try exact T.
+    apply req_write_inv.
+  - destruct (req_cc_get true st) as [st1 i]. cbn [fst]. apply req_write_inv.
+  - destruct (req_cc_get true st) as [st1 i]. cbn [fst]. apply req_write_inv.
+  - cbn [fst]. exact Hi.
+  - cbn [fst]. exact Hi.
+  - cbn [fst]. exact Logic.I.
+  - cbn [fst]. exact Logic.I.
+Qed.
+
+Lemma qhistory_inv ops : forall sth, qinv (fst sth) ->
+  qinv (fst (fold_left (fun s o => fst (qcc_step true s o)) ops sth)).
+Proof. induction ops as [|o ops IH]; intros sth I; [exact I|]. cbn [fold_left]. apply IH, qstep_inv, I. Qed.
+
+(* after ANY history on a request (reads, directive assignments / deletions through request.cache_control or
+   through an object the caller kept, direct changes of .properties, changes of the environ key, assignments of
+   text / dict / None, del): what request.cache_control shows and HTTP_CACHE_CONTROL denote each other *)
+Theorem req_cc_live init ops :
+  let sth := fold_left (fun s o => fst (qcc_step true s o)) ops (mkQ init [] None, None) in
+  let '(st', i) := req_cc_get true (fst sth) in
+  let p := nth i (q_heap st') [] in
+  agree p (qenv_text (fst sth)) /\ agree p (qenv_text st').
+Proof.
+  cbv zeta. pose proof (qhistory_inv ops (mkQ init [] None, None) Logic.I) as Inv.
+  pose proof (req_get_spec _ Inv) as G. destruct (req_cc_get true _) as [st' i]. cbv zeta in G. tauto.
+Qed.
+
+(* a change made through ANY bound object is in the environ at once *)
+Theorem req_cc_mutation_written i f st :
+  qenv_text (req_cc_mutate true i f st) = serialize_cc (f (nth i (q_heap st) [])).
+Proof. reflexivity. Qed.
